@@ -318,7 +318,13 @@ func runC13(c *Ctx) {
 		if len(wops) == 2 {
 			wf := wops[0].in.Parent()
 			pu := named(wf, "PutUint64")
-			check(len(pu) == 1, "expiry is not encoded with one PutUint64")
+			// or appended to an empty slice: order.AppendUint64(nil, secs)
+			au := named(wf, "AppendUint64")
+			appended := len(pu) == 0 && len(au) == 1
+			if appended {
+				pu = au
+			}
+			check(len(pu) == 1 && (appended || len(au) == 0), "expiry is not encoded with one PutUint64 (or one AppendUint64 to an empty slice)")
 			if len(pu) == 1 {
 				wOrder = orderOf(pu[0])
 				unix := c.method("time", "Time", "Unix")
@@ -342,14 +348,26 @@ func runC13(c *Ctx) {
 				var expOp, reasonOp *idxOp
 				for i := range wops {
 					v0, _ := wops[i].val.(*ssa.Slice)
-					if b0 != nil && v0 != nil && b0.X == v0.X {
+					if !appended && b0 != nil && v0 != nil && b0.X == v0.X {
+						expOp = &wops[i]
+					} else if pv, isV := pu[0].(ssa.Value); appended && isV && wops[i].val == pv {
 						expOp = &wops[i]
 					} else {
 						reasonOp = &wops[i]
 					}
 				}
 				check(expOp != nil && reasonOp != nil, "no bucket receives the buffer the expiry was encoded into")
-				if b0 != nil {
+				if appended {
+					emptyBase := false
+					switch b := buf.(type) {
+					case *ssa.Const:
+						emptyBase = b.IsNil()
+					case *ssa.MakeSlice:
+						l, ok := b.Len.(*ssa.Const)
+						emptyBase = ok && l.Value != nil && l.Int64() == 0
+					}
+					check(emptyBase, "the expiry is appended to a slice that is not known to be empty: the record is not 8 bytes")
+				} else if b0 != nil {
 					if pt, ok := b0.X.Type().Underlying().(*types.Pointer); ok {
 						arr, isArr := pt.Elem().Underlying().(*types.Array)
 						check(isArr && arr.Len() == 8, "the expiry buffer is not 8 bytes")
